@@ -90,14 +90,14 @@ pub struct Run {
     pub stderr: String,
 }
 pub fn cli() -> String {
-    std::env::var("IPT_CLI").unwrap_or_else(|_| format!("{}/target/cli/release/islamic_prayer_times", VERIF))
+    std::env::var("IPT_CLI").unwrap_or_else(|_| format!("{}/target/cli/release/islamic_prayer_times", verif_dir()))
 }
 pub fn run_cli(dir: &Path, args: &[String]) -> Run {
     let out = Command::new(cli()).args(args).current_dir(dir).env("TZ", "UTC").output().expect("spawn CLI (machinery)");
     Run { code: out.status.code(), stdout: String::from_utf8_lossy(&out.stdout).to_string(), stderr: String::from_utf8_lossy(&out.stderr).to_string() }
 }
 fn fresh_dir(tag: &str) -> PathBuf {
-    let d = PathBuf::from(format!("{}/target/tmp/c19/{}", VERIF, tag));
+    let d = PathBuf::from(format!("{}/target/tmp/c19/{}", verif_dir(), tag));
     let _ = std::fs::remove_dir_all(&d);
     std::fs::create_dir_all(&d).expect("mkdir");
     d
@@ -305,7 +305,7 @@ pub fn explore(ctx: &Ctx) {
     par_jobs(ctx, &idx, |i, l| {
         judge_rejected(ctx, l, &rej[*i], &format!("r{}", i));
     });
-    let _ = std::fs::remove_dir_all(format!("{}/target/tmp/c19", VERIF));
+    let _ = std::fs::remove_dir_all(format!("{}/target/tmp/c19", verif_dir()));
 }
 
 pub fn replay(ctx: &Ctx, _clause: &str, case: &Value) {
